@@ -46,13 +46,16 @@ type violation struct {
 }
 
 type caseOutcome struct {
-	Case      HookCase
-	Occs      []envlab.Occurrence
-	Results   []envlab.TransResult
-	Teardown  envlab.TeardownResult
-	Records   []envlab.Record
-	Anomalies int
-	GatedOpen int
+	Case            HookCase
+	Occs            []envlab.Occurrence
+	Results         []envlab.TransResult
+	Teardown        envlab.TeardownResult
+	Records         []envlab.Record
+	Anomalies       int
+	GatedOpen       int
+	Hang            string // a driven call never returned: innermost repository function of the driver goroutine
+	HangEvent       string
+	LateUnconfirmed int
 }
 
 func runC08() {
@@ -90,6 +93,9 @@ func runC08() {
 			c.Inconclusive(fmt.Sprintf("case %d: %v", i, err))
 			continue
 		}
+		if reportHang(c, out, id) {
+			return // the environment is stuck with its transition mutex held: stop the batch cleanly
+		}
 		if out.Anomalies > 0 {
 			c.Inconclusive(fmt.Sprintf("case %d: %d lab anomalies: %s", i, out.Anomalies, firstAnomaly(out.Records)))
 			c.Count("cases_with_lab_anomalies", 1)
@@ -107,6 +113,26 @@ func runC08() {
 			c.Sample(map[string]interface{}{"walk": hc.Walk, "hooks": hc.Hooks, "records": len(out.Records)})
 		}
 	}
+}
+
+// reportHang: bounded progress. A transition (or teardown) that has not returned
+// envlab.HangSlack after the longest hook timeout of the set, confirmed
+// envlab.HangConfirm later with no new record and the driving goroutine parked in
+// repository code, never returns: HANG/transition-never-returns@<innermost repository function>.
+func reportHang(c *vlib.Ctx, out *caseOutcome, id int64) bool {
+	if out.Hang == "" {
+		return false
+	}
+	what := "transition"
+	if out.HangEvent == "DESTROY" {
+		what = "teardown"
+	}
+	v := violation{"HANG", what + "-never-returns@" + out.Hang,
+		fmt.Sprintf("%s %s (after %d completed transitions) has not returned %v after the longest hook timeout of the set; no record for another %v, every gate it could wait for open, driving goroutine parked in %s",
+			what, out.HangEvent, len(out.Results), envlab.HangSlack, envlab.HangConfirm, out.Hang)}
+	c.Count("hangs", 1)
+	c.Violation(v.Rule, v.Class, v.Detail, id, witnessOf(out, v))
+	return true
 }
 
 func firstAnomaly(recs []envlab.Record) string {
@@ -150,6 +176,9 @@ func dumpOutcome(out *caseOutcome, vs []violation) {
 	fmt.Println("CASE", string(b))
 	for _, r := range out.Results {
 		fmt.Printf("TRANSITION %s %s -> %s err=%q pending=%v\n", r.Occ.Event, r.Occ.Src, r.State, r.ErrText, r.Pending)
+	}
+	if out.Hang != "" {
+		fmt.Printf("HANG %s never returned, driver parked in %s\n", out.HangEvent, out.Hang)
 	}
 	fmt.Printf("TEARDOWN err=%v leaked=%d\n", out.Teardown.Err, out.Teardown.Leaked)
 	for _, r := range out.Records {
@@ -195,9 +224,19 @@ func execC08(w *envlab.World, hc HookCase) (*caseOutcome, error) {
 	defer lab.Close()
 	out := &caseOutcome{Case: hc}
 	for _, ev := range hc.Walk {
-		out.Results = append(out.Results, lab.Transition(ev, nil))
+		res := lab.Transition(ev, nil)
+		if res.Hang != "" {
+			out.Hang, out.HangEvent = res.Hang, ev
+			break
+		}
+		out.Results = append(out.Results, res)
 	}
-	out.Teardown = lab.Teardown(true)
+	if out.Hang == "" {
+		out.Teardown = lab.Teardown(true)
+		if out.Teardown.Hang != "" {
+			out.Hang, out.HangEvent = out.Teardown.Hang, "DESTROY"
+		}
+	}
 	out.Occs = lab.Occurrences()
 	out.Records = lab.Records()
 	out.Anomalies = lab.Anomalies()
